@@ -22,6 +22,7 @@ func genC08(r *simrt.Rand, tier string, idx int) *hx.Program {
 	p.P["timeskip"] = []int64{0, 0, 5, 40}[r.Intn(4)] // per mille of the scheduling steps at which time passes although tasks are runnable
 	p.P["skipmax_ms"] = []int64{50, 2000, 30000}[r.Intn(3)]
 	p.P["workers"] = []int64{1, 2, 10}[r.Intn(3)]
+	p.P["epochs"] = int64(r.Intn(2)) // leader epochs change during the program (also under the concurrent appender)
 	if r.Pct(20) {
 		p.P["ret_msgs"] = int64(4 + r.Intn(30))
 	}
@@ -49,6 +50,9 @@ func genC08(r *simrt.Rand, tier string, idx int) *hx.Program {
 			p.Ops = append(p.Ops, hx.Op{K: "rd", A: []int64{int64(r.Intn(1001)), int64(r.Intn(2))}})
 		case k < 96:
 			p.Ops = append(p.Ops, hx.Op{K: "reopen"})
+		case k < 98 && p.P["epochs"] == 1:
+			// a new leader epoch: the clean rebuilds the epoch history from the surviving messages
+			p.Ops = append(p.Ops, hx.Op{K: "epoch", A: []int64{int64(1 + r.Intn(2))}})
 		default:
 			p.Ops = append(p.Ops, hx.Op{K: "sleep", A: []int64{int64(1 + r.Intn(3000))}})
 		}
@@ -378,6 +382,11 @@ func (c *c08) exec(t *testing.T, prog *hx.Program, dec *simrt.Decider, verbose b
 				c.startReader(start, op.Arg(1, 0) == 1)
 			case "sleep":
 				simrt.Sleep(time.Duration(op.Arg(0, 1)) * time.Millisecond)
+			case "epoch":
+				h.epoch += uint64(op.Arg(0, 1))
+				if err := h.log.NewLeaderEpoch(h.epoch); err != nil {
+					h.fail("C08/epoch", "C08/epoch/error", "NewLeaderEpoch: %v", err)
+				}
 			case "reopen":
 				for _, lr := range c.readers {
 					lr.cancel()
@@ -484,6 +493,13 @@ func (c *c08) clean(concurrent int, r *simrt.Rand) {
 		h.s.GoNode(h.node, "conc-appender", func() {
 			defer func() { appDone = true }()
 			for k := 0; k < concurrent && !h.stop; k++ {
+				if h.prog.Param("epochs", 0) == 1 && r.Pct(35) {
+					h.epoch += uint64(1 + r.Intn(2))
+					if err := h.log.NewLeaderEpoch(h.epoch); err != nil {
+						h.fail("C08/epoch", "C08/epoch/error", "NewLeaderEpoch: %v", err)
+						return
+					}
+				}
 				if !c.appendN(1+r.Intn(3), r) {
 					return
 				}
@@ -588,5 +604,9 @@ func (c *c08) clean(concurrent int, r *simrt.Rand) {
 			delete(h.ever, o)
 		}
 	}
+	// "rebase segments appended during the clean and rebuild the epoch cache": the history fits the survivors
+	h.s.Quiet(true)
+	h.epochCheck("C08/epochs", true)
+	h.s.Quiet(false)
 	c.verifyReaders("C08/read")
 }
